@@ -314,11 +314,11 @@ impl Decoder {
 
                 match default.method {
                     CryptMethod::V2 | CryptMethod::AESV2 => (
-                        default.length.map(|n| 8 * n).unwrap_or(dict.bits),
+                        default.length.map(|n| n.saturating_mul(8)).unwrap_or(dict.bits),
                         default.method,
                     ),
                     CryptMethod::AESV3 if dict.v == 5 => (
-                        default.length.map(|n| 8 * n).unwrap_or(dict.bits),
+                        default.length.map(|n| n.saturating_mul(8)).unwrap_or(dict.bits),
                         default.method,
                     ),
                     m => err!(other!("unimplemented crypt method {:?}", m)),
